@@ -219,6 +219,9 @@ def fcmp_term(op, a, b):
         op, a, b = "<=", b, a
     if op in ("==", "!=") and show(b) < show(a):
         a, b = b, a
+    if a == b and a.is_const():
+        # a finite literal compared with itself (NaN is never a literal here: it is a call to quiet_NaN())
+        return Lin.const(1 if op in ("==", "<=") else 0)
     return Lin.atom(("fcmp", op, a, b))
 
 
